@@ -9,6 +9,7 @@ import (
 
 	"github.com/bytemare/secp256k1"
 	"github.com/bytemare/secp256k1/verifharness/gen"
+	"github.com/bytemare/secp256k1/verifharness/pt"
 	"github.com/bytemare/secp256k1/verifharness/ref"
 	"pgregory.net/rapid"
 )
@@ -125,6 +126,10 @@ func (s SV) Build() *secp256k1.Scalar {
 	if s.Hist > 0 {
 		fresh := SV{Hex: s.Hex, Mont: s.Mont}.Build()
 		used := secp256k1.NewScalar().SetUInt64(0xdeadbeef)
+		if s.Hist%2 == 0 || s.Hist == 11 {
+			// the object got its previous value from a decoder (whatever a decoder remembers about its input belongs to that value)
+			_ = used.Decode(ref.Bytes32(new(big.Int).SetUint64(0xdeadbeef + uint64(s.Hist))))
+		}
 		_ = used.Bits()
 		_ = used.Encode()
 		_ = used.IsZero()
@@ -231,6 +236,7 @@ func TestReplay(t *testing.T) { gen.ReplayMain(t) }
 // (C15) to be fresh, so this must have no effect on later calls; it runs at the start of every case of the checks
 // below, so that a defect of this kind shows in every case and replays deterministically.
 func hostileCaller() {
+	pt.RecoveredPanics()
 	o := secp256k1.Order()
 	for i := range o {
 		o[i] = 0
